@@ -420,6 +420,68 @@ pub fn check_net(scratch: &Scratch, net: &Net, ni: usize, tier: Tier, st: &mut S
                     }
                 }
             }
+            // a plugin lives as long as the application and renders one response after another: the same route asked for
+            // three times, the second time under another weight (same edges, other costs), each rendering judged against the
+            // search result it was given
+            {
+                let heavy = json!({"origin_vertex": 0, "destination_vertex": n - 1, "weights": {"distance": 3.0}});
+                // (quick tier: every other network)
+                if tier == Tier::Quick && ni % 2 == 1 {
+                    continue;
+                }
+                if let Ok(plugin) = TraversalPlugin::from_file(&gfile, Some(*fmt), Some(*fmt)) {
+                    let chain: Vec<Arc<dyn OutputPlugin>> = vec![Arc::new(SummaryOutputPlugin {}), Arc::new(plugin)];
+                    for (qi, q) in [&query, &heavy, &query].into_iter().enumerate() {
+                        st.evaluations += 1;
+                        st.transitions += 1;
+                        st.traces += 1;
+                        let result = app.run(q, &SearchOrientation::Vertex);
+                        let core: Vec<Vec<(usize, f64, f64)>> = match &result {
+                            Ok((r, _)) => r.routes.iter().map(|rt| rt.iter().map(|e| (e.edge_id.0, e.access_cost.as_f64(), e.traversal_cost.as_f64())).collect()).collect(),
+                            Err(_) => break,
+                        };
+                        if core.iter().all(|r| r.is_empty()) {
+                            break;
+                        }
+                        let comp = format!("{}.{}.plugin_that_rendered_before", fname, if ai == 0 { "single_route" } else { "several_routes" });
+                        let case = || json!({"net": net, "format": fname, "algo": algo, "plugin_reused": true, "rendering_number": qi, "query": q, "net_index": ni});
+                        let out = match guarded(|| apply_output_processing(q, result, &app, &chain)) {
+                            Ok(o) => o,
+                            Err(p) => {
+                                st.violation(&comp, "no_panic", net.size(), || p.clone(), case);
+                                break;
+                            }
+                        };
+                        if out.get("error").is_some() {
+                            st.violation(&comp, "renders_without_error", net.size(), || out["error"].to_string(), case);
+                            break;
+                        }
+                        let rendered: Vec<Value> = match out.get("route") {
+                            Some(Value::Array(a)) if core.len() > 1 => a.clone(),
+                            Some(Value::Null) | None => vec![],
+                            Some(x) => vec![x.clone()],
+                        };
+                        let ok = rendered.len() == core.len()
+                            && rendered.iter().zip(core.iter()).all(|(r, c)| {
+                                let path = &r["path"];
+                                match *fname {
+                                    "edge_id" => path.as_array().map_or(false, |a| a.len() == c.len() && a.iter().zip(c.iter()).all(|(x, (e, _, _))| x.as_u64() == Some(*e as u64))),
+                                    "json" => path.as_array().map_or(false, |a| a.len() == c.len() && a.iter().zip(c.iter()).all(|(x, (e, ac, tc))| x["edge_id"].as_u64() == Some(*e as u64) && x["access_cost"].as_f64() == Some(*ac) && x["traversal_cost"].as_f64() == Some(*tc))),
+                                    "geo_json" => path["features"].as_array().map_or(false, |a| {
+                                        a.len() == c.len() && a.iter().zip(c.iter()).all(|(f, (e, ac, tc))| f["id"].as_u64() == Some(*e as u64) && f["properties"]["access_cost"].as_f64() == Some(*ac) && f["properties"]["traversal_cost"].as_f64() == Some(*tc))
+                                    }),
+                                    // the geometry formats carry no records; their geometry is judged above
+                                    _ => path.is_string(),
+                                }
+                            });
+                        if ok {
+                            st.pass("rendering_follows_the_search_result_it_was_given");
+                        } else {
+                            st.violation(&comp, "rendering_follows_the_search_result_it_was_given", net.size(), || format!("rendering number {} of one plugin: search result {:?}, rendered {}", qi, core, out.get("route").cloned().unwrap_or(Value::Null)), case);
+                        }
+                    }
+                }
+            }
         }
     }
     let _ = std::fs::remove_dir_all(&dir);
